@@ -279,14 +279,17 @@ pub fn c01(ctx: &mut Ctx) -> Option<Failure> {
     for _ in 0..3000 {
         asts.push(random_ast(ctx, 3));
     }
-    let mut m = ReManager::new();
-    for ast in asts {
+    let mut shared = ReManager::new();
+    for (n, ast) in asts.into_iter().enumerate() {
         if ctx.out_of_time() {
             break;
         }
+        // every third construction starts from a fresh manager (the result must not depend on history)
+        let mut fresh = ReManager::new();
+        let m: &mut ReManager = if n % 3 == 1 { &mut fresh } else { &mut shared };
         let r = ctx.case(|| {
             watch(show(&ast));
-            let e = match guarded(|| build(&mut m, &ast)) {
+            let e = match guarded(|| build(m, &ast)) {
                 Ok(e) => e,
                 Err(p) => return fail("constructors", show(&ast), "no panic".into(), p),
             };
@@ -301,7 +304,7 @@ pub fn c01(ctx: &mut Ctx) -> Option<Failure> {
                 }
             }
             // hash-consing: the same construction again, after other terms exist, is the same term
-            let e2 = build(&mut m, &ast);
+            let e2 = build(m, &ast);
             if !std::ptr::eq(e, e2) || e != e2 {
                 return fail("hash-consing(same construction)", show(&ast), "identical term".into(), "different term".into());
             }
@@ -685,8 +688,33 @@ pub fn c16(ctx: &mut Ctx) -> Option<Failure> {
     for a in atoms() {
         asts.push(a);
     }
-    for _ in 0..120 {
+    for _ in 0..60 {
         asts.push(random_ast(ctx, 2));
+    }
+    // concatenations mixing rigid factors (ranges) and flexible ones (Sigma*, loops, complements)
+    let factors = |ctx: &mut Ctx| -> Ast {
+        let a = || Box::new(Ast::Range(A, A));
+        match ctx.below(12) {
+            0 => Ast::Range(A, A),
+            1 => Ast::Range(A + 1, A + 1),
+            2 => Ast::Range(A, A + 1),
+            3 => Ast::Range(A + 2, A + 2),
+            4 | 5 => Ast::Full,
+            6 => Ast::Plus(a()),
+            7 => Ast::Star(a()),
+            8 => Ast::Comp(Box::new(Ast::Eps)),
+            9 => Ast::AllChars,
+            10 => Ast::Opt(Box::new(Ast::Range(A + 1, A + 1))),
+            _ => Ast::Comp(Box::new(Ast::Str(vec![A + 1, A]))),
+        }
+    };
+    for _ in 0..100 {
+        let n = 1 + ctx.below(4);
+        let mut cur = factors(ctx);
+        for _ in 1..n {
+            cur = Ast::Concat(Box::new(cur), Box::new(factors(ctx)));
+        }
+        asts.push(cur);
     }
     let mut m = ReManager::new();
     let built: Vec<(Ast, RegLan)> = asts.iter().map(|a| (a.clone(), build(&mut m, a))).collect();
